@@ -126,8 +126,8 @@ pub fn check_program<G: Cv>(env: &Env<G>, prog: &Program, seed: u64) -> Out {
     let mut out = Out::default();
     let run = match recorded_prove::<G>(env, prog, seed, "c09-ext-1") {
         Ok(r) => r,
-        Err(e) => {
-            out.bad.push(("prove succeeds".into(), e));
+        Err(_) => {
+            out.precondition = Some("the honest prover run did not produce a proof (C01's business)");
             return out;
         }
     };
@@ -138,6 +138,10 @@ pub fn check_program<G: Cv>(env: &Env<G>, prog: &Program, seed: u64) -> Out {
             return out;
         }
     };
+    if !run.ctx.problems.is_empty() {
+        out.precondition = Some("prover and reference model disagree on the variables handed out (C16's business): the witness layout is unknown, opening skipped");
+        return out;
+    }
     let rc = &run.ctx.refcs;
     let (n, n1, padded) = (rc.gates(), rc.n1(), rc.padded());
     let n2 = n - n1;
@@ -420,7 +424,7 @@ pub fn check_program<G: Cv>(env: &Env<G>, prog: &Program, seed: u64) -> Out {
                 }
             }
         }
-        (a, b) => out.bad.push(("re-proving succeeds".into(), format!("{:?} / {:?}", a.err(), b.err()))),
+        _ => out.precondition = Some("re-proving did not produce a proof (C01's business)"),
     }
     out
 }
